@@ -393,7 +393,9 @@ class Exec:
                                 taken.append("true" if (int(k) != 0) == is_true else "false")
                             continue
                     if k == "otherwise":
-                        cond = "(and " + " ".join(f"(not {c})" for c in taken) + ")" if len(taken) > 1 else (f"(not {taken[0]})" if taken else "true")
+                        def neg1(c):
+                            return c[5:-1] if c.startswith("(not ") and c.endswith(")") and c.count("(") == c.count(")") and _balanced(c[5:-1]) else f"(not {c})"
+                        cond = "(and " + " ".join(neg1(c) for c in taken) + ")" if len(taken) > 1 else (neg1(taken[0]) if taken else "true")
                     else:
                         n = int(k)
                         if v[0] == "bool":
@@ -471,10 +473,22 @@ class Exec:
         return "(" + ",".join(self.key(x) for x in v[1]) + ")"
 
 
+def _balanced(t):
+    d = 0
+    for ch in t:
+        if ch == "(":
+            d += 1
+        elif ch == ")":
+            d -= 1
+            if d < 0:
+                return False
+    return d == 0
+
+
 def _parse_call(st):
     """`[dst = ]callee(args) -> [return: bbN, unwind ..]` or `... -> unwind ..` (diverging).
     The argument list is the balanced parenthesis group that ends right before ` -> `."""
-    m = re.match(r"^(.*)\) -> (\[return: (bb\d+), unwind.*\]|unwind .*)$", st)
+    m = re.match(r"^(.*)\) -> (\[return: (bb\d+), unwind.*\]|unwind .*|bb\d+)$", st)
     if not m:
         return None
     head, ret = m.group(1), m.group(3)
